@@ -286,8 +286,8 @@ impl Scenario for HostileMaster {
 
     fn runs(&self, tier: Tier) -> u64 {
         match tier {
-            Tier::Quick => 20_000,
-            Tier::Thorough => 400_000,
+            Tier::Quick => 60_000,
+            Tier::Thorough => 1_600_000,
         }
     }
 
@@ -711,8 +711,8 @@ impl Scenario for HostileOutstation {
 
     fn runs(&self, tier: Tier) -> u64 {
         match tier {
-            Tier::Quick => 10_000,
-            Tier::Thorough => 200_000,
+            Tier::Quick => 30_000,
+            Tier::Thorough => 800_000,
         }
     }
 
